@@ -687,6 +687,54 @@ example : (callFn (mkEnv { ees := [], classes := [] } { strs := [("value", "7")]
       { st := { pop := [.blk true], scopes := [⟨.blk 0, []⟩] } }).map (fun r => (r.2.st.pop, r.2.tys))
     = some ([.blk true, .val 0, .lin 1 "7"], [(1, "integer")]) := by decide
 
+/-! final round: the boolean literal, the two block handlers, delete -/
+
+/-- `accept_BooleanNode` for the spellings Flat.lean models (`true` / `false`): `Value = str(node.value).upper()` -/
+theorem boolean_as_in_source (fc : FCtx) (nd : Node) (g : G) (n : Nat) (v : String) (hb : BlkOK g.st)
+    (hv : nd.strs.lookup "value" = some v) (hlit : v = "true" ∨ v = "false") :
+    callFn (mkEnv fc nd) (n + 20) accept_BooleanNode [.node] [] g
+      = some (.inst (buildExpr fc (.bool v) g.st).1,
+              { g with st := (buildExpr fc (.bool v) g.st).2, tys := ((buildExpr fc (.bool v) g.st).1, "boolean") :: g.tys }) :=
+  boolean_eq fc nd g n v hb hv hlit
+
+/-- `accept_BlockNode`, for ANY oracle of the statement list: a new ACT_BLK (R601 is not stored), its scope entered, the
+    statements accepted, the scope left, the block answered.  With the oracle `fun _ g => (.none, { g with st := body g.st })`
+    this is `withBlock g.st body` of Flat.lean. -/
+theorem block_as_in_source (fc : FCtx) (nd : Node) (g : G) (n : Nat) (acc : Acc)
+    (hk : nd.kids.lookup "statement_list" = some acc) :
+    callFn (mkEnv fc nd) (n + 20) accept_BlockNode [.node] [] g
+      = some (.inst (g.st.new (.blk false)).1,
+              { (acc [] { g with st := pushScope (.blk (g.st.new (.blk false)).1) (g.st.new (.blk false)).2 }).2 with
+                st := popScope (acc [] { g with st := pushScope (.blk (g.st.new (.blk false)).1) (g.st.new (.blk false)).2 }).2.st }) :=
+  block_eq fc nd g n acc hk
+
+/-- `accept_BodyNode`: the outer ACT_BLK (R666 → `.blk true`), its scope, `node.block.statement_list` accepted, the scope left;
+    on the empty state with the oracle of `buildStmts fc none a` this is `prebuildSt fc a` -/
+theorem body_as_in_source (fc : FCtx) (nd : Node) (g : G) (n : Nat) (acc : Acc)
+    (hk : nd.kids.lookup "block.statement_list" = some acc) :
+    callFn (mkEnv fc nd) (n + 20) accept_BodyNode [.node] [] g
+      = some (.actAct,
+              { (acc [] { g with st := pushScope (.blk (g.st.new (.blk true)).1) (g.st.new (.blk true)).2 }).2 with
+                st := popScope (acc [] { g with st := pushScope (.blk (g.st.new (.blk true)).1) (g.st.new (.blk true)).2 }).2.st }) :=
+  body_eq fc nd g n acc hk
+
+/-- applied: an empty body gives the outer block alone, scope stack balanced -/
+example : (callFn (mkEnv { ees := [], classes := [] } { kids := [("block.statement_list", fun _ g => (.none, g))] })
+      20 accept_BodyNode [.node] [] { st := {} }).map (fun r => (r.2.st.pop, r.2.st.scopes.length)) = some ([.blk true], 0) := by
+  decide
+
+/-- `accept_DeleteNode`: act_smt, find_symbol (`lookupVar`), ACT_DEL, R603, R634 := the variable — the `.delete` clause of
+    `buildStmt`; a name that is not found fails on both sides (`relate` with None).  Hypothesis: what find_symbol answers is
+    a V_VAR row. -/
+theorem delete_as_in_source (fc : FCtx) (nd : Node) (g : G) (n : Nat) (name : String) (hb : BlkOK g.st)
+    (hn : nd.strs.lookup "variable_name" = some name)
+    (hvar : ∀ v, (lookupVar fc name (newSmt none g.st).2).1 = some v →
+      ∃ nm b, (lookupVar fc name (newSmt none g.st).2).2.pop[v]? = some (.var nm b)) :
+    callFn (mkEnv fc nd) (n + 20) accept_DeleteNode [.node] [] g
+      = some (.inst (buildStmt fc none (.delete name) g.st).1,
+              { g with st := (buildStmt fc none (.delete name) g.st).2 }) :=
+  delete_eq fc nd g n name hb hn hvar
+
 end PbShape
 
 end PyxProps.C06
